@@ -79,6 +79,7 @@ Lemma messages_wf_top :
   (forall k s, wf_fmt (fmt_ServerKeyExchange k s)) /\ (forall k b, wf_fmt (fmt_ClientKeyExchange k b)) /\
   (forall n, 0 <= n -> wf_fmt (fmt_Finished n)) /\ wf_fmt fmt_NextProtocol /\
   wf_fmt fmt_NewSessionTicket13 /\ wf_fmt fmt_NewSessionTicket10 /\ wf_fmt fmt_SessionTicketPayload /\
+  wf_fmt fmt_CompressedCertificate /\ wf_fmt fmt_RecordHeader2 /\ wf_fmt fmt_ClientHelloSSL2 /\
   (forall c, wf_fmt (fmt_Ext c) /\ delim (fmt_Ext c)).
 Proof.
   split; [exact wf_RecordHeader3|].
@@ -104,6 +105,9 @@ Proof.
   split; [exact wf_NewSessionTicket13|].
   split; [exact wf_NewSessionTicket10|].
   split; [exact wf_SessionTicketPayload|].
+  split; [exact wf_CompressedCertificate|].
+  split; [exact wf_RecordHeader2|].
+  split; [exact wf_ClientHelloSSL2|].
   intros c. split; [apply wf_Ext|apply delim_Ext].
 Qed.
 
